@@ -59,8 +59,10 @@ fn store_cmd(k: i64) -> String {
     let e = Ev { k, typ: "a".into(), ctx: format!("c{}", k % 2) };
     let ob = if k % 2 == 0 { format!(",\"ob\":{}", k * 3) } else { String::new() };
     format!(
-        "STORE a FOR {} PAYLOAD {{\"k\":{k},\"s\":\"v{k}\",\"ta\":1,\"n\":{},\"f\":{:?},\"dd\":\"2023-11-{:02}\",\"dt\":{},\"en\":\"{}\",\"bb\":{}{ob}}}",
+        "STORE a FOR {} PAYLOAD {{\"k\":{k},\"s\":\"{}{k}\",\"ta\":1,\"n\":{},\"f\":{:?},\"dd\":\"2023-11-{:02}\",\"dt\":{},\"en\":\"{}\",\"bb\":{}{ob}}}",
         e.ctx,
+        // strings of the stored frames: ASCII, a Latin-1 letter (two UTF-8 bytes), a three-byte character
+        ["v", "Zo\u{eb} M\u{fc}ller ", "\u{2603}"][(k % 3) as usize],
         e.big(),
         e.frac(),
         10 + k % 15,
